@@ -112,7 +112,8 @@ _hq_cache = {}
 
 def _has_quant(z):
     k = z.get_id()
-    r = _hq_cache.get(k)
+    hit = _hq_cache.get(k)
+    r = hit[0] if hit is not None else None
     if r is None:
         r = False
         stack, seen = [z], set()
@@ -127,7 +128,7 @@ def _has_quant(z):
             stack.extend(x.children())
         if len(_hq_cache) > 50000:
             _hq_cache.clear()
-        _hq_cache[k] = r
+        _hq_cache[k] = (r, z)  # keep the term alive: z3 reuses AST ids of freed terms, a stale hit would misclassify a hypothesis
     return r
 
 
